@@ -4,7 +4,7 @@ namespace Model.Writers
 
 /-- program points at which the thread holds `_version_lock` -/
 def holdsLock : Pc → Bool
-  | .wTest | .wMkTxn | .wClrEv | .wRelA | .wNewEv | .wAppend | .wRelB | .cAppend | .cPrune | .cNodes | .cUndo | .eTxnNone | .eTestW | .ePop | .eSet | .eRel | .rdPick | .rdAdd | .rdRel | .xRemove | .xPrune | .xRel => true
+  | .wTest | .wMkTxn | .wClrEv | .wRelA | .wNewEv | .wAppend | .wRelB | .cAppend | .cPrune | .cNodes | .cUndo | .eTxnNone | .eTestW | .ePop | .eSet | .eRel | .rdPick | .rdAdd | .rdRel | .rdFail | .xRemove | .xPrune | .xRel => true
   | _ => false
 
 @[simp, grind =] theorem holdsLock_idle : holdsLock .idle = false := rfl
@@ -37,6 +37,7 @@ def holdsLock : Pc → Bool
 @[simp, grind =] theorem holdsLock_rdPick : holdsLock .rdPick = true := rfl
 @[simp, grind =] theorem holdsLock_rdAdd : holdsLock .rdAdd = true := rfl
 @[simp, grind =] theorem holdsLock_rdRel : holdsLock .rdRel = true := rfl
+@[simp, grind =] theorem holdsLock_rdFail : holdsLock .rdFail = true := rfl
 @[simp, grind =] theorem holdsLock_rdRet : holdsLock .rdRet = false := rfl
 @[simp, grind =] theorem holdsLock_rdBody : holdsLock .rdBody = false := rfl
 @[simp, grind =] theorem holdsLock_xAcq : holdsLock .xAcq = false := rfl
@@ -80,6 +81,7 @@ def isOwner : Pc → Bool
 @[simp, grind =] theorem isOwner_rdPick : isOwner .rdPick = false := rfl
 @[simp, grind =] theorem isOwner_rdAdd : isOwner .rdAdd = false := rfl
 @[simp, grind =] theorem isOwner_rdRel : isOwner .rdRel = false := rfl
+@[simp, grind =] theorem isOwner_rdFail : isOwner .rdFail = false := rfl
 @[simp, grind =] theorem isOwner_rdRet : isOwner .rdRet = false := rfl
 @[simp, grind =] theorem isOwner_rdBody : isOwner .rdBody = false := rfl
 @[simp, grind =] theorem isOwner_xAcq : isOwner .xAcq = false := rfl
@@ -123,6 +125,7 @@ def queuedPc : Pc → Bool
 @[simp, grind =] theorem queuedPc_rdPick : queuedPc .rdPick = false := rfl
 @[simp, grind =] theorem queuedPc_rdAdd : queuedPc .rdAdd = false := rfl
 @[simp, grind =] theorem queuedPc_rdRel : queuedPc .rdRel = false := rfl
+@[simp, grind =] theorem queuedPc_rdFail : queuedPc .rdFail = false := rfl
 @[simp, grind =] theorem queuedPc_rdRet : queuedPc .rdRet = false := rfl
 @[simp, grind =] theorem queuedPc_rdBody : queuedPc .rdBody = false := rfl
 @[simp, grind =] theorem queuedPc_xAcq : queuedPc .xAcq = false := rfl
@@ -166,6 +169,7 @@ def tokenPc : Pc → Bool
 @[simp, grind =] theorem tokenPc_rdPick : tokenPc .rdPick = false := rfl
 @[simp, grind =] theorem tokenPc_rdAdd : tokenPc .rdAdd = false := rfl
 @[simp, grind =] theorem tokenPc_rdRel : tokenPc .rdRel = false := rfl
+@[simp, grind =] theorem tokenPc_rdFail : tokenPc .rdFail = false := rfl
 @[simp, grind =] theorem tokenPc_rdRet : tokenPc .rdRet = false := rfl
 @[simp, grind =] theorem tokenPc_rdBody : tokenPc .rdBody = false := rfl
 @[simp, grind =] theorem tokenPc_xAcq : tokenPc .xAcq = false := rfl
@@ -209,6 +213,7 @@ def snapAPc : Pc → Bool
 @[simp, grind =] theorem snapAPc_rdPick : snapAPc .rdPick = false := rfl
 @[simp, grind =] theorem snapAPc_rdAdd : snapAPc .rdAdd = false := rfl
 @[simp, grind =] theorem snapAPc_rdRel : snapAPc .rdRel = false := rfl
+@[simp, grind =] theorem snapAPc_rdFail : snapAPc .rdFail = false := rfl
 @[simp, grind =] theorem snapAPc_rdRet : snapAPc .rdRet = false := rfl
 @[simp, grind =] theorem snapAPc_rdBody : snapAPc .rdBody = false := rfl
 @[simp, grind =] theorem snapAPc_xAcq : snapAPc .xAcq = false := rfl
@@ -252,6 +257,7 @@ def commitPc : Pc → Bool
 @[simp, grind =] theorem commitPc_rdPick : commitPc .rdPick = false := rfl
 @[simp, grind =] theorem commitPc_rdAdd : commitPc .rdAdd = false := rfl
 @[simp, grind =] theorem commitPc_rdRel : commitPc .rdRel = false := rfl
+@[simp, grind =] theorem commitPc_rdFail : commitPc .rdFail = false := rfl
 @[simp, grind =] theorem commitPc_rdRet : commitPc .rdRet = false := rfl
 @[simp, grind =] theorem commitPc_rdBody : commitPc .rdBody = false := rfl
 @[simp, grind =] theorem commitPc_xAcq : commitPc .xAcq = false := rfl
@@ -295,6 +301,7 @@ def vidPc : Pc → Bool
 @[simp, grind =] theorem vidPc_rdPick : vidPc .rdPick = false := rfl
 @[simp, grind =] theorem vidPc_rdAdd : vidPc .rdAdd = false := rfl
 @[simp, grind =] theorem vidPc_rdRel : vidPc .rdRel = false := rfl
+@[simp, grind =] theorem vidPc_rdFail : vidPc .rdFail = false := rfl
 @[simp, grind =] theorem vidPc_rdRet : vidPc .rdRet = false := rfl
 @[simp, grind =] theorem vidPc_rdBody : vidPc .rdBody = false := rfl
 @[simp, grind =] theorem vidPc_xAcq : vidPc .xAcq = false := rfl
@@ -338,6 +345,7 @@ def preCommitPc : Pc → Bool
 @[simp, grind =] theorem preCommitPc_rdPick : preCommitPc .rdPick = false := rfl
 @[simp, grind =] theorem preCommitPc_rdAdd : preCommitPc .rdAdd = false := rfl
 @[simp, grind =] theorem preCommitPc_rdRel : preCommitPc .rdRel = false := rfl
+@[simp, grind =] theorem preCommitPc_rdFail : preCommitPc .rdFail = false := rfl
 @[simp, grind =] theorem preCommitPc_rdRet : preCommitPc .rdRet = false := rfl
 @[simp, grind =] theorem preCommitPc_rdBody : preCommitPc .rdBody = false := rfl
 @[simp, grind =] theorem preCommitPc_xAcq : preCommitPc .xAcq = false := rfl
@@ -381,6 +389,7 @@ def appendedPc : Pc → Bool
 @[simp, grind =] theorem appendedPc_rdPick : appendedPc .rdPick = false := rfl
 @[simp, grind =] theorem appendedPc_rdAdd : appendedPc .rdAdd = false := rfl
 @[simp, grind =] theorem appendedPc_rdRel : appendedPc .rdRel = false := rfl
+@[simp, grind =] theorem appendedPc_rdFail : appendedPc .rdFail = false := rfl
 @[simp, grind =] theorem appendedPc_rdRet : appendedPc .rdRet = false := rfl
 @[simp, grind =] theorem appendedPc_rdBody : appendedPc .rdBody = false := rfl
 @[simp, grind =] theorem appendedPc_xAcq : appendedPc .xAcq = false := rfl
@@ -424,6 +433,7 @@ def readerHasPc : Pc → Bool
 @[simp, grind =] theorem readerHasPc_rdPick : readerHasPc .rdPick = false := rfl
 @[simp, grind =] theorem readerHasPc_rdAdd : readerHasPc .rdAdd = true := rfl
 @[simp, grind =] theorem readerHasPc_rdRel : readerHasPc .rdRel = true := rfl
+@[simp, grind =] theorem readerHasPc_rdFail : readerHasPc .rdFail = false := rfl
 @[simp, grind =] theorem readerHasPc_rdRet : readerHasPc .rdRet = true := rfl
 @[simp, grind =] theorem readerHasPc_rdBody : readerHasPc .rdBody = true := rfl
 @[simp, grind =] theorem readerHasPc_xAcq : readerHasPc .xAcq = true := rfl
@@ -434,7 +444,7 @@ def readerHasPc : Pc → Bool
 
 /-- program points a reader thread can be at -/
 def readerPc : Pc → Bool
-  | .idle | .rdAcq | .rdPick | .rdAdd | .rdRel | .rdRet | .rdBody | .xAcq | .xRemove | .xPrune | .xRel | .done => true
+  | .idle | .rdAcq | .rdPick | .rdAdd | .rdRel | .rdFail | .rdRet | .rdBody | .xAcq | .xRemove | .xPrune | .xRel | .done => true
   | _ => false
 
 @[simp, grind =] theorem readerPc_idle : readerPc .idle = true := rfl
@@ -467,6 +477,7 @@ def readerPc : Pc → Bool
 @[simp, grind =] theorem readerPc_rdPick : readerPc .rdPick = true := rfl
 @[simp, grind =] theorem readerPc_rdAdd : readerPc .rdAdd = true := rfl
 @[simp, grind =] theorem readerPc_rdRel : readerPc .rdRel = true := rfl
+@[simp, grind =] theorem readerPc_rdFail : readerPc .rdFail = true := rfl
 @[simp, grind =] theorem readerPc_rdRet : readerPc .rdRet = true := rfl
 @[simp, grind =] theorem readerPc_rdBody : readerPc .rdBody = true := rfl
 @[simp, grind =] theorem readerPc_xAcq : readerPc .xAcq = true := rfl
@@ -496,6 +507,7 @@ def lockFuel : Pc → Nat
   | .rdPick => 3
   | .rdAdd => 2
   | .rdRel => 1
+  | .rdFail => 1
   | .xRemove => 3
   | .xPrune => 2
   | .xRel => 1
@@ -531,6 +543,7 @@ def lockFuel : Pc → Nat
 @[simp, grind =] theorem lockFuel_rdPick : lockFuel .rdPick = 3 := rfl
 @[simp, grind =] theorem lockFuel_rdAdd : lockFuel .rdAdd = 2 := rfl
 @[simp, grind =] theorem lockFuel_rdRel : lockFuel .rdRel = 1 := rfl
+@[simp, grind =] theorem lockFuel_rdFail : lockFuel .rdFail = 1 := rfl
 @[simp, grind =] theorem lockFuel_rdRet : lockFuel .rdRet = 0 := rfl
 @[simp, grind =] theorem lockFuel_rdBody : lockFuel .rdBody = 0 := rfl
 @[simp, grind =] theorem lockFuel_xAcq : lockFuel .xAcq = 0 := rfl
@@ -596,6 +609,7 @@ def stageFuel : Pc → Nat
 @[simp, grind =] theorem stageFuel_rdPick : stageFuel .rdPick = 0 := rfl
 @[simp, grind =] theorem stageFuel_rdAdd : stageFuel .rdAdd = 0 := rfl
 @[simp, grind =] theorem stageFuel_rdRel : stageFuel .rdRel = 0 := rfl
+@[simp, grind =] theorem stageFuel_rdFail : stageFuel .rdFail = 0 := rfl
 @[simp, grind =] theorem stageFuel_rdRet : stageFuel .rdRet = 0 := rfl
 @[simp, grind =] theorem stageFuel_rdBody : stageFuel .rdBody = 0 := rfl
 @[simp, grind =] theorem stageFuel_xAcq : stageFuel .xAcq = 0 := rfl
@@ -611,6 +625,7 @@ def readerFuel : Pc → Nat
   | .rdPick => 9
   | .rdAdd => 8
   | .rdRel => 7
+  | .rdFail => 1
   | .rdRet => 6
   | .rdBody => 5
   | .xAcq => 4
@@ -649,6 +664,7 @@ def readerFuel : Pc → Nat
 @[simp, grind =] theorem readerFuel_rdPick : readerFuel .rdPick = 9 := rfl
 @[simp, grind =] theorem readerFuel_rdAdd : readerFuel .rdAdd = 8 := rfl
 @[simp, grind =] theorem readerFuel_rdRel : readerFuel .rdRel = 7 := rfl
+@[simp, grind =] theorem readerFuel_rdFail : readerFuel .rdFail = 1 := rfl
 @[simp, grind =] theorem readerFuel_rdRet : readerFuel .rdRet = 6 := rfl
 @[simp, grind =] theorem readerFuel_rdBody : readerFuel .rdBody = 5 := rfl
 @[simp, grind =] theorem readerFuel_xAcq : readerFuel .xAcq = 4 := rfl
@@ -692,6 +708,7 @@ def endPc : Pc → Bool
 @[simp, grind =] theorem endPc_rdPick : endPc .rdPick = false := rfl
 @[simp, grind =] theorem endPc_rdAdd : endPc .rdAdd = false := rfl
 @[simp, grind =] theorem endPc_rdRel : endPc .rdRel = false := rfl
+@[simp, grind =] theorem endPc_rdFail : endPc .rdFail = false := rfl
 @[simp, grind =] theorem endPc_rdRet : endPc .rdRet = false := rfl
 @[simp, grind =] theorem endPc_rdBody : endPc .rdBody = false := rfl
 @[simp, grind =] theorem endPc_xAcq : endPc .xAcq = false := rfl
@@ -735,6 +752,7 @@ def acqPc : Pc → Bool
 @[simp, grind =] theorem acqPc_rdPick : acqPc .rdPick = false := rfl
 @[simp, grind =] theorem acqPc_rdAdd : acqPc .rdAdd = false := rfl
 @[simp, grind =] theorem acqPc_rdRel : acqPc .rdRel = false := rfl
+@[simp, grind =] theorem acqPc_rdFail : acqPc .rdFail = false := rfl
 @[simp, grind =] theorem acqPc_rdRet : acqPc .rdRet = false := rfl
 @[simp, grind =] theorem acqPc_rdBody : acqPc .rdBody = false := rfl
 @[simp, grind =] theorem acqPc_xAcq : acqPc .xAcq = true := rfl
